@@ -313,6 +313,8 @@ def _ops():
         s_ = last[-1] if last[-1] != 0 else last[np.flatnonzero(last)[0]]
         a[-1] = 0
         a[-1, -1] = s_
+        if abs(np.linalg.det(a / np.max(np.abs(a)))) < 1e-6:
+            raise Skip("the affine part of this map is singular")  # harness domain: an invertible map is needed
         return G.Transformation(a)
 
     op("(aff(t)*rp).center", (2,), ("t0", "p1"), lambda t, a: (aff(t) * G.RegularPolygon(a, 2, 5)).center, coll=False)
